@@ -198,6 +198,30 @@ def rule_aspa(ctx):
         if len(t.term['dest']) > 1 and t.term['dest'][-1] == '.0' and 'union' in arg_desc(t, 0):
             stored = True
     ctx.check(stored, 'K4', 'process_aspa:union-stored', 'the union replaces the stored provider set', 'the union result is not stored')
+    # ... and it is the WHOLE union: no iterator adaptor (take/filter/skip/...) between union() and collect()
+    nwu = 0
+    for t in b.calls('Iterator::collect'):
+        if 'union' not in arg_desc(t, 0):
+            continue
+        nwu += 1
+        o = b.origin_of_operand(t.term['args'][0])
+        while o is not None and o.kind in ('ref', 'cast'):
+            o = o.base
+        direct = o is not None and o.kind == 'call' and o.callee.endswith('SmallAsnSet::union')
+        ctx.check(direct, 'K4', 'process_aspa:whole-union-stored',
+                  'the stored provider set is collect(union(existing, new)) without any adaptor in between',
+                  'the provider union is passed through `%s` before it is stored: a merged ASPA is truncated/filtered instead of being '
+                  'the union (and an oversized union then escapes the too-large test in into_snapshot)'
+                  % (o.callee if o is not None and o.kind == 'call' else describe(o)[:60]), loc=t.loc())
+    ctx.floor('K4', 'collect of the provider union', nwu, 1)
+    # the size test in into_snapshot sees the whole stored set
+    for c in [c for c in ctx.closures(ctx.body('payload::validation::SnapshotBuilder::into_snapshot')) if c.calls('ProviderAsns::try_from_iter')]:
+        for t in c.calls('ProviderAsns::try_from_iter'):
+            d = arg_desc(t, 0)
+            ctx.check(bool(re.match(r'^call:SmallAsnSet::iter\([^()]*\)$', d)),
+                      'K4', 'into_snapshot:size-test-on-whole-set',
+                      'the encodability test is applied to the complete provider set (%s)' % d,
+                      'ProviderAsns::try_from_iter is applied to `%s`, not to the complete provider set' % d, loc=t.loc())
     s = ctx.body('payload::validation::SnapshotBuilder::into_snapshot')
     cls = [c for c in ctx.closures(s) if c.calls('ProviderAsns::try_from_iter')]
     ctx.floor('K4', 'size-limit closure in into_snapshot', len(cls), 1)
